@@ -1224,7 +1224,8 @@ class Index:
                 )
                 sha1_writer.close()
         except:
-            f.close()
+            # Never replace the index with a partially written file.
+            f.abort()
             raise
 
     def read(self) -> None:
